@@ -2207,8 +2207,9 @@ func (f *fragment) importValueSmallWrite(columnIDs []uint64, values []int64, bit
 		_ = f.openStorage(true)
 		return err
 	}
-	rowSet := make(map[uint64]struct{}, bitDepth+1)
-	for i := uint(0); i < bitDepth+1; i++ {
+	// BSI rows: exists (0), sign (1) and one row per magnitude bit (bsiOffsetBit..bsiOffsetBit+bitDepth-1).
+	rowSet := make(map[uint64]struct{}, bitDepth+bsiOffsetBit)
+	for i := uint(0); i < bitDepth+bsiOffsetBit; i++ {
 		rowSet[uint64(i)] = struct{}{}
 	}
 	err := f.importPositions(toSet, toClear, rowSet)
@@ -2248,6 +2249,13 @@ func (f *fragment) importValue(columnIDs []uint64, values []int64, bitDepth uint
 		_ = f.openStorage(true)
 		return err
 	}
+	// The bits were written straight to storage: drop the cached rows and
+	// block checksums of every BSI row.
+	for i := uint64(0); i < uint64(bitDepth)+bsiOffsetBit; i++ {
+		f.rowCache.Add(i, nil)
+		delete(f.checksums, int(i/HashBlockSize))
+	}
+
 	// We don't actually care, except we want our stats to be accurate.
 	f.incrementOpN(totalChanges)
 
